@@ -264,6 +264,22 @@ func (g *Gen) StdEnv() (names []string, ts map[string]*Ty, vs map[string]*V) {
 	put("oo", TObj(F("p", oAB), F("q", TList(oWH)), F("c", TBool)))
 	put("xss", TList(TList(TNum)))
 	put("名", TNum)
+	// strict function values for dynamic callees
+	n2n := TFun([]*Ty{TNum}, TNum)
+	inc := &V{T: n2n, Fn: &Fun{Name: "inc", Impl: func(_ *Evaluator, _ *Ty, a []Arg) *V { return VNum(a[0].V.N + 1) }}}
+	dbl := &V{T: n2n, Fn: &Fun{Name: "dbl", Impl: func(_ *Evaluator, _ *Ty, a []Arg) *V { return VNum(a[0].V.N * 2) }}}
+	cmpT := TFun([]*Ty{TNum, TStr}, TBool)
+	cmp := &V{T: cmpT, Fn: &Fun{Name: "cmp", Impl: func(_ *Evaluator, _ *Ty, a []Arg) *V { return VBool(a[0].V.N > float64(len(a[1].V.S))) }}}
+	bind := func(n string, v *V) {
+		names = append(names, n)
+		ts[n] = v.T
+		vs[n] = v
+	}
+	bind("inc", inc)
+	bind("dbl", dbl)
+	bind("cmp", cmp)
+	bind("fs", &V{T: TList(n2n), L: []*V{inc, dbl, inc}})
+	bind("fo", &V{T: TObj(F("f", n2n), F("k", TNum)), O: []*V{dbl, VNum(3)}})
 	return
 }
 
@@ -546,6 +562,37 @@ func (g *Gen) expr0(t *Ty, d int) *E {
 		if !hasMaybe(t) {
 			k := g.Literal(kt, 0)
 			return Subscript(Map([]*E{k}, []*E{g.Expr(t, d-1)}), k.Clone())
+		}
+	}
+	// dynamic call: the callee is an expression of function type
+	if d > 0 && g.p(0.06) {
+		if _, ok := g.EnvT["fs"]; ok {
+			var callee *E
+			var params []*Ty
+			switch {
+			case Eq(t, TNum):
+				params = []*Ty{TNum}
+				switch g.pick(4) {
+				case 0:
+					callee = Subscript(Ident("fs"), g.Index())
+				case 1:
+					callee = Call("if", g.Expr(TBool, d-1), Ident("inc"), Ident("dbl"))
+				case 2:
+					callee = Member(Ident("fo"), "f")
+				default:
+					callee = CallF(FTernary, "if", g.Expr(TBool, d-1), Subscript(Ident("fs"), Num("1", 1)), Ident("inc"))
+				}
+			case Eq(t, TBool):
+				params = []*Ty{TNum, TStr}
+				callee = Call("if", g.Expr(TBool, d-1), Ident("cmp"), Ident("cmp"))
+			}
+			if callee != nil {
+				args := make([]*E, len(params))
+				for i, p := range params {
+					args[i] = g.Expr(p, d-1)
+				}
+				return DynCall(callee, args...)
+			}
 		}
 	}
 	// call of a function returning t
